@@ -23,3 +23,47 @@ Theorem C01_max_greatest : forall (F : Type) (O : Ops F) (P : F -> Prop) (p mi c
   forall k, (k < length xs)%nat ->
     greatest_in O (lastn (N.to_nat p) (firstn (S k) xs)) (nth k outs (ninf O)).
 Proof. intros F O P p mi ci xs OR. exact (max_greatest O P p mi ci xs OR). Qed.
+
+(* ---- exact arithmetic (extended reals, no rounding): model = textbook statistic of the last min(t,p) inputs ----
+   [prefixes_from [] xs] lists the non-empty prefixes of the stream; [lastn p h] is its last min(|h|,p) elements.
+   Every period p >= 1 (up to the allocation limit), every finite stream of any length and sign, every prefix. *)
+From Coq Require Import Reals Lra.
+From TA Require Import XR Proofs.XBase Proofs.XSma Proofs.XWma Proofs.XMad Proofs.XSd.
+
+Theorem C01_sma_refines : forall (p : N) (s : @Sma XR) (xs : list R), sma_new XROps p = Ok s ->
+  sma_outs s (map Fin xs) = map (fun h => Fin (mean (lastn (N.to_nat p) h))) (prefixes_from [] xs).
+Proof. exact sma_refines. Qed.
+
+(* weights 1..k, newest heaviest: wmean l = (sum_j j * l_j) / (k(k+1)/2) *)
+Theorem C01_wma_refines : forall (p : N) (s : @Wma XR) (xs : list R), wma_new XROps p = Ok s ->
+  wma_outs s (map Fin xs) = map (fun h => Fin (wmean (lastn (N.to_nat p) h))) (prefixes_from [] xs).
+Proof. exact wma_refines. Qed.
+
+(* population standard deviation: sqrt (sum (x - mean)^2 / k) *)
+Theorem C01_sd_refines : forall (p : N) (s : @Sd XR) (xs : list R), sd_new XROps p = Ok s ->
+  sd_outs s (map Fin xs) = map (fun h => Fin (R_sqrt.sqrt (pvar (lastn (N.to_nat p) h)))) (prefixes_from [] xs).
+Proof. exact sd_refines. Qed.
+
+(* mean absolute deviation about the window mean *)
+Theorem C01_mad_refines : forall (p : N) (s : @Mad XR) (xs : list R), mad_new XROps p = Ok s ->
+  mad_outs s (map Fin xs) = map (fun h => Fin (madev (lastn (N.to_nat p) h))) (prefixes_from [] xs).
+Proof. exact mad_refines. Qed.
+
+(* bands: [mean; mean + sd * m; mean - sd * m] of the window, any finite multiplier *)
+Theorem C01_bb_refines : forall (p : N) (mu : R) (s : @Bb XR) (xs : list R), bb_new XROps p (Fin mu) = Ok s ->
+  bb_outs s (map Fin xs) = map (bb_spec (N.to_nat p) mu) (prefixes_from [] xs).
+Proof. exact bb_refines. Qed.
+
+(* the definitions used above, pinned *)
+Theorem C01_specs : forall l : list R,
+  mean l = (Rsum l / INR (length l))%R /\
+  wmean l = (wsum l / (INR (length l) * (INR (length l) + 1) / 2))%R /\
+  pvar l = (Rsum (map (fun x => (x - mean l) * (x - mean l))%R l) / INR (length l))%R /\
+  madev l = (Rsum (map (fun x => Rabs (x - mean l)) l) / INR (length l))%R /\
+  wsum [1; 10; 100]%R = (1 * 1 + 2 * 10 + (3 * 100 + 0))%R.
+Proof. intros l. repeat split; try reflexivity. unfold wsum. cbn. lra. Qed.
+
+(* non-vacuity: a wrapped window with a tie and a sign change *)
+Example C01_example : exists s, sma_new XROps 2 = Ok s /\
+  sma_outs s (map Fin [3; -1; -1; 5]%R) = [Fin (mean [3]); Fin (mean [3; -1]); Fin (mean [-1; -1]); Fin (mean [-1; 5])]%R.
+Proof. eexists. split; [reflexivity|]. rewrite (sma_refines 2 _ _ eq_refl). reflexivity. Qed.
